@@ -113,6 +113,23 @@ def variant(run, g, seed, mode, quick):
             damage_phase(s, caches, quick, desc)
         if mode == 'shared':
             racing_phase(s, cache, desc, 2 if quick else 6)
+        if mode in ('private', 'shared'):
+            # the cache directory also holds entries of OTHER repositories (same shard directories): deleting a snapshot removes its own entry,
+            # the neighbours are none of its business
+            for u in s.users:
+                cdir = s.world.users[u].cache
+                for shard in (sorted(p_ for p_ in (Path(cdir) / 'snapshots').glob('*') if p_.is_dir()) if cdir and (Path(cdir) / 'snapshots').is_dir() else []):
+                    (shard / ('%s%s-%s' % (shard.name, 'e' * 62, 'f' * 64))).write_bytes(b'entry of another repository')
+            for u in s.users:
+                for u_ in s.users:
+                    s.ls(u_)                     # every cache is warm again
+                rd = s.readable(u)
+                if rd:
+                    s.ctx = 'cache shard directories shared with entries of another repository'
+                    o = s.delete(u, rd[:1])
+                    s.ctx = None
+                    desc.append('delete-next-to-foreign-cache-entries(%s)->%s' % (u, o.etype))
+                    s.ls(u)
         traces.append(s.trace(extra={'history': desc, 'opts': {'cache': mode}}))
         run.case((g, seed, mode, len(desc)))
     return traces
